@@ -354,13 +354,12 @@ Next ==
 Spec == Init /\ [][Next]_vars
 
 (* =========================== properties ================================ *)
-AllEntries == cidr \cup dom \cup fwd \cup agt
 Core(e) == [e EXCEPT !.old = FALSE]
 
 TypeOK ==
-  /\ \A e \in AllEntries : e.metric \in Nat /\ e.seq \in Nat /\ e.old \in BOOLEAN
+  /\ \A tb \in TableNames : \A e \in T(tb) : e.metric \in Nat /\ e.seq \in Nat /\ e.old \in BOOLEAN
   /\ lseq \in Nat
-  /\ \A e \in cidr \cup fwd \cup agt : DOMAIN e = {"key", "origin", "nh", "metric", "seq", "path", "old"}
+  /\ \A tb \in TableNames \ {"dom"} : \A e \in T(tb) : DOMAIN e = {"key", "origin", "nh", "metric", "seq", "path", "old"}
   /\ \A e \in dom : DOMAIN e = {"key", "origin", "nh", "metric", "seq", "path", "old", "cv"}
 
 \* at most one entry per slot
@@ -368,7 +367,7 @@ SlotUnique == \A tb \in TableNames : \A e, f \in T(tb) :
                  (e.key = f.key /\ e.origin = f.origin /\ (tb = "agt" => e.nh = f.nh)) => e = f
 
 \* C10: a route whose path contains the local agent is never stored
-NoLoopStored == \A e \in AllEntries : ~Loops(e)
+NoLoopStored == \A tb \in TableNames : \A e \in T(tb) : ~Loops(e)
 
 \* C10: a stored route from an origin is replaced only by a newer sequence, or the same sequence and a
 \* strictly lower metric (replacement = the slot is occupied before and after, with different content)
@@ -398,9 +397,14 @@ AcceptedIsStored ==
   [][(last'.act = "Advert" /\ last'.res) =>
         \E e \in TN(last'.tbl) : /\ e.key = last'.key /\ e.origin = last'.origin /\ e.nh = last'.nh
                                  /\ e.seq = last'.seq /\ e.metric = last'.m + Inc(last'.tbl) /\ ~e.old]_vars
+\* an advertisement touches nothing but its own slot
+AdvertKeepsOthers ==
+  [][last'.act = "Advert" =>
+        \A e \in T(last'.tbl) :
+           ~(e.key = last'.key /\ e.origin = last'.origin /\ (last'.tbl = "agt" => e.nh = last'.nh)) => e \in TN(last'.tbl)]_vars
 \* local routes never come from a neighbour: next hop is the agent itself, no path; the table copy of a local
 \* route never carries a sequence above the manager's counter
-LocalShape == \A e \in AllEntries : e.nh = Local => (e.origin = Local /\ e.path = <<>> /\ e.seq <= lseq)
+LocalShape == \A tb \in TableNames : \A e \in T(tb) : e.nh = Local => (e.origin = Local /\ e.path = <<>> /\ e.seq <= lseq)
 
 \* C08: the lookup algorithm answers inside the acceptable set, nothing exactly when nothing contains the address
 LookupCidrOK == \A a \in CidrQ :
